@@ -94,7 +94,22 @@ pub enum Shape {
     V4OddPort,
 }
 
+thread_local! {
+    static SHAPED: std::cell::RefCell<std::collections::HashMap<(u32, u64, Shape), Enr>> = std::cell::RefCell::new(std::collections::HashMap::new());
+}
+
+/// Cached: a node signs one record per sequence number (ECDSA signatures are randomised, so
+/// building "the same" record twice would yield two different records with one seq).
 pub fn shaped_record(key_idx: u32, seq: u64, shape: Shape) -> Enr {
+    if let Some(e) = SHAPED.with(|m| m.borrow().get(&(key_idx, seq, shape)).cloned()) {
+        return e;
+    }
+    let e = shaped_record_uncached(key_idx, seq, shape);
+    SHAPED.with(|m| m.borrow_mut().insert((key_idx, seq, shape), e.clone()));
+    e
+}
+
+fn shaped_record_uncached(key_idx: u32, seq: u64, shape: Shape) -> Enr {
     let k = keys::key(key_idx);
     let a4 = svc_addr4(key_idx);
     let a6 = svc_addr6(key_idx);
